@@ -223,6 +223,7 @@ Inductive ev :=
 | EAcquire (i : nat) | EDecide (i : nat) (start : bool) | EStart (i : nat)
 | ECancel (i : nat) | EJoin (i : nat) | EFinish (i : nat) | ERelease (i : nat)
 | EBodyDone (i k : nat) (cancelled : bool)
+| ETimeout (i k : nat)
 | EReturn (i : nat).
 
 Definition pass_ops (s : st) : list op := map (fun i => Act i Pass) (seq 0 (length (invs s))).
@@ -265,6 +266,7 @@ Definition observe (s : st) (e : ev) : option st :=
           end
       | None => None
       end
+  | ETimeout i k => try s (Act i (Timeout k))
   | EReturn i => match pc_of s i with Some PRet => Some s | _ => None end
   end.
 
